@@ -384,6 +384,32 @@ func c12(r *rt.Run) {
 		"every ordered pair (S,T): SetConforms affirmed => members_V(S) subset of members_V(T); UpperBound/LowerBound of every pair and of every triple of a ~55-type sub-alphabet; non-trivial = pairs where conformance is affirmed")
 }
 
+// taggedUnionVariantMember decides membership of c in a tagged union type variant by variant: each variant read as a
+// struct type with a singleton tag, judged by the library's own struct membership. ok is false when t is not a
+// well-formed tagged union.
+func taggedUnionVariantMember(t ast.BaseTerm, c ast.Constant) (member, ok bool) {
+	tu, isApply := t.(ast.ApplyFn)
+	if !isApply || tu.Function.Symbol != symbols.TaggedUnionType.Symbol || len(tu.Args) < 3 || len(tu.Args)%2 != 1 {
+		return false, false
+	}
+	for k := 1; k+1 < len(tu.Args); k += 2 {
+		st, ok1 := tu.Args[k+1].(ast.ApplyFn)
+		tag, ok2 := tu.Args[k].(ast.Constant)
+		if !ok1 || !ok2 {
+			return false, false
+		}
+		args := append([]ast.BaseTerm{tu.Args[0], symbols.NewSingletonType(tag)}, st.Args...)
+		h, err := symbols.NewSetHandle(symbols.NewStructType(args...))
+		if err != nil {
+			return false, false
+		}
+		if h.HasType(c) {
+			member = true
+		}
+	}
+	return member, true
+}
+
 // explain attributes a non-membership v ∉ T to the two recorded design inconsistencies: it returns
 // "-explained-by-map-key-variance" if v would be a member of T were map key types ignored,
 // "-explained-by-struct-width" if v would be a member were structs open (extra fields allowed,
